@@ -1869,11 +1869,16 @@ class _gpg_multivalued(_multivalued):
                 # the raw text.
                 pass
             else:
+                line_iter = (self._bytes(s, encoding) for s in sequence)
                 try:
-                    gpg_pre_lines, lines, gpg_post_lines = \
-                        self.split_gpg_and_payload(
-                            (self._bytes(s, encoding) for s in sequence),
-                            strict)
+                    while True:
+                        gpg_pre_lines, lines, gpg_post_lines = \
+                            self.split_gpg_and_payload(line_iter, strict)
+                        # A block of comment lines only is not a paragraph:
+                        # comments are ignored, so go on to the next block.
+                        if gpg_pre_lines or \
+                                not all(ln.startswith(b'#') for ln in lines):
+                            break
                 except EOFError:
                     # Empty input
                     gpg_pre_lines = lines = gpg_post_lines = []
